@@ -36,6 +36,25 @@ CLAIMS = {
               "construct, because the rules follow different column conventions."),
         technique="Lean 4 proof (structural induction over texts and line lists, parametric in alphabet / filter / window size) + differential and anchor checks on planted constructs",
         ref="DESIGN.md §3 C12"),
+    "C13": dict(
+        text=("Kernel-checked theorems about the text-based steps of the linters (the only places where layout can reach a verdict), for every "
+              "text, edit position, stateful normaliser and window size: inserting a line the tokenizer drops moves every tracked line below "
+              "it by one and changes nothing else (tokenize_insert), so DRY sees the same snippets with shifted ends (dry_windows_insert, "
+              "windows_renumber); count_loc is blind to inserted blank/comment lines, trailing white space, CR line ends and re-indentation "
+              "(countLoc_insert, countLoc_layout with strip_trailing_ws / strip_leading_ws, blank_is_not_code); the old line's text is found at "
+              "its shifted position and several insertions move a line by the number inserted at or above it (insertAt_get, shiftMany_ge). "
+              "Two genuine defects repaired (TypeScript class size counted raw lines; a BOM broke every Python rule). Tied to /repo by a "
+              "metamorphic run: generated py/ts/rs projects are linted with 15 commands before and after random sequences of meaning-preserving "
+              "edits (blank / comment lines, trailing white space, re-indentation, LF<->CRLF, BOM, appended code, project-wide renames of locals) "
+              "and the second result must equal the first with every line — also the S-E ranges quoted by duplicate-code messages — mapped by the "
+              "Lean shift; normalize_line and the count_loc line filter of the implementation are compared with the Lean functions on every "
+              "line, and every inserted line must be noise for the model."),
+        note=("layout-insensitivity of the tree-based analyses (tree-sitter, ast) is assumed and only sampled by the metamorphic run; the size stated "
+              "in a duplicate-code message is the raw span of the block and follows its S-E range, so it is compared through the mapped range; "
+              "renames are applied project-wide because DRY compares tokens across files; edits stay below the generated preamble (module docstring, "
+              "imports), as the property allows for header-sensitive linters."),
+        technique="Lean 4 proof (induction over line lists, parametric normaliser) + metamorphic differential check + line-by-line correspondence of the text-based steps",
+        ref="DESIGN.md §3 C13"),
     "C14": dict(
         text=("Kernel-checked theorems: for every directory tree, recursive or not, from the root or a sub-directory, the "
               "walk collects exactly the files not below an always-excluded directory and not compiled artefacts "
@@ -188,8 +207,8 @@ CLAIMS = {
         text=("Kernel-checked theorems about the SRP decision logic for all counts, limits and switches: reported iff methods > max_methods "
               "or lines > max_loc or (keyword checking on and keyword in name); exactly on a limit is not reported and one above is; the "
               "message lists exactly the exceeded criteria with the counts, each once; more permissive thresholds never add a report; only "
-              "countable members change the method count; blank/comment lines never change the Python/Rust size (and do change the "
-              "TypeScript span); language overrides apply only to their language. The counting functions and from_dict are executed by the "
+              "countable members change the method count; blank/comment lines never change the measured size in any language (repaired: "
+              "TypeScript used to count the raw span); language overrides apply only to their language. The counting functions and from_dict are executed by the "
               "Lean driver on generated class descriptions and compared with `thailint srp` (line, full message, exit code)."),
         note=("What counts as a public method per language is the implementation's notion, mirrored in `countable`; parsers trusted; "
               "nested classes only as separate top-level-like classes."),
